@@ -73,6 +73,8 @@ type pfbRead struct {
 type pfbObs struct {
 	odd bool
 	fp  uint64
+	dec io.Reader // the decoder itself
+	eof bool      // it has returned io.EOF
 }
 
 // runPFB drives pfb.Decode over a simulated source with the given caller buffer
@@ -100,10 +102,12 @@ func runPFBx(data []byte, m pfbModel, sch sim.Schedule, tape *sim.Tape, nextBuf 
 	}
 	r := pfb.Decode(under)
 	var got []byte
+
 	var trace []pfbRead
 	var termErr error
 	pendingShort := -1 // index of a short read with nil error still waiting for "no more data follows"
 	var ob pfbObs
+	ob.dec = r
 	ob.fp = 14695981039346656037
 	limit := 4*len(data) + 4*len(m.out) + 64
 	calls := 0
@@ -179,6 +183,7 @@ func runPFBx(data []byte, m pfbModel, sch sim.Schedule, tape *sim.Tape, nextBuf 
 	// "stopping at the end marker": once the decoder has announced the end,
 	// reading again must not produce anything more
 	if termErr == io.EOF {
+		ob.eof = true
 		for i := 0; i < 2; i++ {
 			buf := make([]byte, 1+nextBuf())
 			n, err := r.Read(buf)
@@ -226,6 +231,50 @@ func runPFBx(data []byte, m pfbModel, sch sim.Schedule, tape *sim.Tape, nextBuf 
 	return nil, trace, ob
 }
 
+// successor: a decoder created after another one has finished is a value of
+// its own.  The finished decoder stays finished whatever happens to the new
+// one, and the new one delivers its own stream whatever is done to the old.
+func successor(old io.Reader, data []byte, m pfbModel, t *sim.Tape) *sim.Outcome {
+	rc := pfb.Decode(bytes.NewReader(data))
+	var got []byte
+	var err error
+	buf := make([]byte, 1+t.Choose(7))
+	late := func(when string) *sim.Outcome {
+		b := make([]byte, 1+t.Choose(9))
+		n, e := old.Read(b)
+		if n != 0 || e == nil {
+			return &sim.Outcome{Class: "data-after-end", Key: "pfb:data-after-end:successor",
+				Detail: fmt.Sprintf("a decoder that had returned io.EOF returned n=%d err=%v (%q) when read again %s", n, e, clip(b[:max(n, 0)]), when)}
+		}
+		return nil
+	}
+	if out := late("after another decoder had been created"); out != nil {
+		return out
+	}
+	for i := 0; err == nil && i < 4*len(data)+64; i++ {
+		var n int
+		n, err = rc.Read(buf)
+		got = append(got, buf[:n]...)
+		if i == 1 {
+			if out := late("while another decoder was in use"); out != nil {
+				return out
+			}
+			buf = make([]byte, 4096)
+		}
+	}
+	bad := !bytes.Equal(got, m.out)
+	if m.prefixOnly {
+		bad = !bytes.HasPrefix(m.out, got)
+	}
+	if bad {
+		return &sim.Outcome{Class: "wrong-output", Key: "pfb:successor", Detail: fmt.Sprintf("a decoder created after another one had finished gave output %q, its stream's model says %q", clip(got), clip(m.out))}
+	}
+	if m.wantEOF && err != io.EOF || m.wantInvalid && err != pfb.ErrInvalidPFB || m.wantNonEOF && (err == nil || err == io.EOF) {
+		return &sim.Outcome{Class: "wrong-terminal", Key: "pfb:successor-terminal", Detail: fmt.Sprintf("a decoder created after another one had finished ended with %v", err)}
+	}
+	return nil
+}
+
 func clip(b []byte) []byte {
 	if len(b) > 120 {
 		return append(append([]byte{}, b[:120]...), "..."...)
@@ -249,6 +298,10 @@ func C14() *sim.Check {
 			c.St.Inc("probe_finished_with_io.Copy")
 		}
 		out, trace, ob := runPFBx(data, m, sch, t, nextBuf, c.St, c.Explain, copyAfter, nil)
+		if out == nil && ob.eof && t.Choose(4) == 0 {
+			c.St.Inc("probe_successor_decoder")
+			out = successor(ob.dec, data, m, t)
+		}
 		if c.St != nil {
 			c.St.Inc(fmt.Sprintf("anomaly_%d", an))
 			hasBin := false
@@ -340,7 +393,7 @@ func C14() *sim.Check {
 			errB = err
 		}
 		nextBuf, _ := gen.GenBufSizes(t)
-		out, trace, _ := runPFBx(da, ma, sim.Schedule{Mode: sim.ChunkFixed, K: 1 + t.Choose(3)}, nil, nextBuf, c.St, c.Explain, -1, stepB)
+		out, trace, oba := runPFBx(da, ma, sim.Schedule{Mode: sim.ChunkFixed, K: 1 + t.Choose(3)}, nil, nextBuf, c.St, c.Explain, -1, stepB)
 		big := make([]byte, 8192)
 		for i := 0; errB == nil && i < 1_000_000; i++ {
 			n, err := rb.Read(big)
@@ -351,6 +404,13 @@ func C14() *sim.Check {
 		c.St.Case(sim.Mix(sim.HashBytes(da), "duet", sim.HashBytes(db)))
 		if out == nil && (!bytes.Equal(gotB, mb.out) || errB != io.EOF) {
 			out = &sim.Outcome{Class: "wrong-output", Key: "pfb:duet", Detail: fmt.Sprintf("a second decoder advanced in between gave output %q / %v, its stream's model says %q / EOF", clip(gotB), errB, clip(mb.out))}
+		}
+		if out == nil && errB == io.EOF {
+			// a third decoder, made when the first two are done
+			out = successor(rb, da, ma, t)
+			if out == nil && oba.eof {
+				out = successor(oba.dec, db, mb, t)
+			}
 		}
 		if out != nil {
 			out.Detail = "two decoders advanced alternately: " + out.Detail
